@@ -313,3 +313,71 @@ def c12_4(run):
 from obligations import c07 as _c07, c09 as _c09
 obligation('C12', 'C12-5 splitting a block for Celestia: one metadata item plus one rollup-data item per rollup, each carrying this block\'s hash, that rollup\'s transactions and proof (= C07-3)')(_c07.c07_3)
 obligation('C12', 'C12-6 decoding the way conductor does: foreign / undecodable blobs are dropped as a whole, everything else is kept in order (= C09-5)')(_c09.c09_5)
+
+
+# ----------------------------------------------------------------------------------------------------------------- C12-7
+@obligation('C12', 'C12-7 Input::try_into_payload: one blob with ALL block metadata (in order) under the sequencer namespace, then exactly one blob per rollup namespace carrying exactly that namespace\'s entries; any blob that cannot be added fails the whole conversion')
+def c12_7(run):
+    import re as _re
+    from mirsym.engine import ok as _ok, err as _err, some as _some, none as _none
+    def h_try_add(ctx):
+        st = ctx.st
+        ns = ctx.ex.deref_val(st, ctx.args[1]); lst = ctx.ex.deref_val(st, ctx.args[2])
+        ents = ctx.ex.deref_val(st, lst.fields.get((None, 0))) if isinstance(lst, Obj) else None
+        tags = [ctx.ex.deref_val(st, x).attrs.get('ident') for x in ents.attrs['items']] if isinstance(ents, Obj) and 'items' in ents.attrs else None
+        k = sum(1 for e in st.log if e[0] == 'try_add')
+        st.log.append(('try_add', ns, lst.ty.split('::')[-1] if isinstance(lst, Obj) and lst.ty else None, tags))
+        okv = z3.Bool(f'blob_{k}_fits')
+        return [(okv, _ok(())), (z3.Not(okv), (lambda s: _err(Obj('AddToPayloadError', kind='error'))))]
+    hooks = [(_re.compile(r'^(conversion::)?Payload::try_add::<'), h_try_add), (_re.compile(r'^(conversion::)?Payload::with_capacity$'), lambda ctx: [(None, Obj('Payload', kind='opaque'))]),
+             (_re.compile(r'as (prost::)?Name>::(type_url|full_name)$'), lambda ctx: [(None, Obj('String', kind='opaque'))])]
+    ex = loader.load(['astria-sequencer-relayer'], hooks=hooks, scalar_types={'tendermint::block::Height': 64, 'SequencerHeight': 64, 'celestia_types::nmt::Namespace': 232, 'Namespace': 232})
+    cands = [n for n in ex.fns if n.endswith('::try_into_payload') and 'closure' not in n and (ex.impl_self(n) or (None, ''))[1] == 'Input']
+    if len(cands) != 1:
+        raise Inconclusive(f'Input::try_into_payload not found: {cands}')
+    run.bound(inputs='0..2 blocks of metadata, 0..2 rollup namespaces with 1..2 entries each, sequencer namespace present or not; Payload::try_add (encoding + brotli) is an oracle that may refuse')
+    n_ok = 0
+    seqns = z3.BitVec('sequencer_namespace', 232)
+    for nmeta in (0, 1, 2):
+        for shape in ([], [1], [2], [1, 2]):
+            for has_ns in (True, False):
+                metas = []
+                for i in range(nmeta):
+                    m_ = Obj('SubmittedMetadata', kind='opaque'); m_.attrs['ident'] = f'metadata_{i}'; metas.append(m_)
+                nss = [z3.BitVec(f'rollup_namespace_{j}', 232) for j in range(len(shape))]
+                groups = []
+                for j, cnt in enumerate(shape):
+                    es = []
+                    for t in range(cnt):
+                        e_ = Obj('SubmittedRollupData', kind='opaque'); e_.attrs['ident'] = f'rollup_data_{j}_{t}'; es.append(e_)
+                    groups.append((nss[j], M.new_vec('Vec<SubmittedRollupData>', es)))
+                meta = B.struct(ex, 'InputMeta', sequencer_namespace=_some(seqns) if has_ns else _none()) if ex.adts.lookup('InputMeta') else None
+                if meta is None:
+                    raise Inconclusive('InputMeta not in the ADT table (refactored?)')
+                inp = B.struct(ex, 'Input', metadata=M.new_vec('Vec<SubmittedMetadata>', metas), rollup_data_for_namespace=M.new_map('IndexMap<Namespace, Vec<SubmittedRollupData>>', groups), meta=meta)
+                st = ex.start(cands[0], [inp])
+                if len(nss) == 2:
+                    st.pc.append(nss[0] != nss[1])
+                for i, p in enumerate(run.explore(ex, st, allow_havoc=(r'^Arguments::|fmt::',))):
+                    lab = f'[{nmeta} metadata, namespaces {shape}, sequencer namespace {has_ns}, path {i}]'
+                    if p.kind != 'return':
+                        run.prove(f'no panic {lab}', p.pc, z3.BoolVal(False), detail=p.info); continue
+                    adds = [e for e in p.log if e[0] == 'try_add']
+                    run.sample({'metadata': nmeta, 'namespaces': shape, 'path': i, 'result': p.result.discr, 'blobs': len(adds)})
+                    if adds:
+                        a0 = adds[0]
+                        run.prove(f'the first blob is the metadata list: all block metadata, in order, under the sequencer namespace {lab}', p.pc,
+                                  z3.And(z3.BoolVal(has_ns and a0[3] == [f'metadata_{x}' for x in range(nmeta)] and 'Metadata' in (a0[2] or '')), a0[1] == seqns))
+                    for j, a_ in enumerate(adds[1:]):
+                        run.prove(f'rollup blob {j}: exactly the entries of its namespace, under that namespace {lab}', p.pc,
+                                  z3.And(z3.BoolVal(j < len(shape) and a_[3] == [f'rollup_data_{j}_{t}' for t in range(shape[j])] and 'RollupData' in (a_[2] or '')), a_[1] == nss[j] if j < len(nss) else z3.BoolVal(False)))
+                    if p.result.discr == 'Ok':
+                        n_ok += 1
+                        run.prove(f'Ok => one metadata blob plus one blob per namespace, and every blob was accepted {lab}', p.pc,
+                                  z3.And(z3.BoolVal(len(adds) == 1 + len(shape) and has_ns), *[z3.Bool(f'blob_{k}_fits') for k in range(len(adds))]))
+                    else:
+                        run.prove(f'Err => the sequencer namespace is missing or a blob was refused {lab}', p.pc,
+                                  z3.Or(z3.BoolVal(not has_ns), *[z3.Not(z3.Bool(f'blob_{k}_fits')) for k in range(len(adds))]))
+    if not n_ok:
+        raise Inconclusive('vacuity')
+    run.require_reached(*run.cur.reach)
